@@ -167,3 +167,5 @@ def regenerate(names):
             text = '(* translator failed: %s *)\nDefinition translator_failed_%s : False := I.\n' % (str(e).replace('*)', '* )'), n)
         core.write_if_changed(path, text)
     return failures
+
+from . import src2v_codec; GENERATORS.update(src2v_codec.GENERATORS)
